@@ -208,6 +208,60 @@ def shapes(tier, rnd):
     return res
 
 
+HOSTILE_CELLS = ["%", "25%", "%s", "%d", "%(x)s", "100% organic", "{0}", "{", "}", "\\", "'", '"', "\x00", "\n", "\u20ac", "%%", "a" * 300]
+
+
+def native_hostile_rows():
+    """concrete: rows whose items contain formatting directives, quotes, control characters: a row with a wrong item
+    count, a rejected cell or a rejecting row check is reported as an error naming row and column whatever its items
+    are (the solver queries treat message formatting as opaque: S-FMT).  Exploration, not a solver verdict."""
+    from cutplace import validio, errors, interface
+    failures = []
+    n = 0
+    keys = ("t12", "ch", "t01")
+    text = rf.cid_text(keys, checks=("c,u,IsUnique,%s" % rf.field_names(keys)[0],))
+    for h in HOSTILE_CELLS:
+        tables = {
+            "too few items": [["ab", "a", ""], ["ab", h]],
+            "too many items": [["ab", "a", ""], ["xy", "a", "", h, "more " + h]],
+            "only one item": [[h]],
+            "no items": [[]],
+            "rejected cell": [["ab", h, ""]],
+            "rejected first cell": [[h + "toolong", "a", ""]],
+            "duplicate": [[h[:2] or "x", "a", ""], [h[:2] or "x", "b", ""]],
+        }
+        for what, rows in tables.items():
+            for mode in ("yield", "raise", "continue"):
+                n += 1
+                try:
+                    cid = interface.create_cid_from_string(text)
+                    with patched(*rf.srows_patches()):
+                        try:
+                            got = list(validio.rows(cid, rows, on_error=mode))
+                            raised = None
+                        except errors.DataError as e:
+                            got, raised = None, e
+                    errs = [r for r in (got or []) if isinstance(r, errors.DataError)] + ([raised] if raised is not None else [])
+                    for e in errs:
+                        if "(R" not in str(e):
+                            failures.append(dict(key="row-verdict", what="%s with item %r in mode %s: the error text names no row: %s" % (
+                                what, h, mode, e), args=dict(case=what, item=h, mode=mode)))
+                    last_ok = len(rows[-1]) == 3 and rf.FIELD_POOL["t12"].ok(rows[-1][0]) and rf.FIELD_POOL["ch"].ok(rows[-1][1]) \
+                        if what != "duplicate" else False
+                    if what == "duplicate" and not rf.FIELD_POOL["t12"].ok(rows[0][0]):
+                        continue
+                    if mode == "yield" and not last_ok and not errs:
+                        failures.append(dict(key="row-verdict", what="%s with item %r: no error was reported (%r)" % (what, h, got),
+                                             args=dict(case=what, item=h, mode=mode)))
+                    if mode == "raise" and not last_ok and raised is None:
+                        failures.append(dict(key="row-verdict", what="%s with item %r in raise mode: nothing was raised" % (what, h),
+                                             args=dict(case=what, item=h, mode=mode)))
+                except Exception as e:  # noqa
+                    failures.append(dict(key="row-verdict", what="%s with item %r in mode %s raised %s: %s" % (
+                        what, h, mode, type(e).__name__, e), args=dict(case=what, item=h, mode=mode)))
+    return dict(count=n, failures=failures, samples=[])
+
+
 def build(tier, seed):
     rnd = random.Random(seed)
     queries = []
@@ -229,7 +283,9 @@ def build(tier, seed):
         # a row whose key tuple differs from every earlier one passes the IsUnique row check (concrete composite keys
         # that collide under joining / rendering / normalisation; exploration, see props/c05.py)
         from props.c05 import native_key_collisions
-        return native_key_collisions("row-verdict")
+        res = native_key_collisions("row-verdict")
+        more = native_hostile_rows()
+        return dict(count=res["count"] + more["count"], failures=res["failures"] + more["failures"], samples=[])
 
     return dict(queries=queries, native=native,
                 assumptions=["rows reach validio exactly as the container reader yields them (S-ROWS)",
